@@ -179,3 +179,14 @@ PROPS.update({
         explanation="Theorems C08 / C08_unbounded (proofs/C08Redefine*.v): Redefine fails with the output-filter error exactly when an output is rejected; when it succeeds every input of the redefined function passes the input filter (bound: fewer than (2^63-1)/20 vertices) and none is keyed like a supplied value. NOT proved, decided by correspondence + monitor only: calling the redefined function with a value per input never fails for lack of an argument and yields the original results; success whenever every parameter is permitted. Correspondence: Redefine's declared inputs as a set, then the call of the redefined function (outer resolution of the synthesised struct function and inner original Call) against the model, on the property's domain (stream redefstrict) and beyond (stream redefine: subtypes, interfaces, multi-input converters, generated converters).",
         assumptions=["the 'callable' and 'succeeds when all permitted' clauses are monitored, not proved"]),
 })
+
+PROPS.update({
+    "C07": dict(layer=RES,
+        streams=[S("c07f1", "run_prop2 CFull 7", 300, 10000), S("c07f2", "run_prop2 CFull 7", 300, 10000),
+                 S("namesub", "run_prop CFull P01", 100, 3000),
+                 S("c07f1", "run_prop2 CPanic 7", 150, 3000, variant="nat"), S("c07f2", "run_prop2 CPanic 7", 150, 3000, variant="nat")],
+        witness=[],
+        nontrivial_rule="every family scenario (three order tapes each)",
+        explanation="Theorems C07_f1 / C07_f2 (proofs/C07Affinity*.v): for the two documented priority families -- F1: one named parameter (n,U), a type-only converter T->U and ANY number of competing named inputs of type T of which one is named n; F2: additionally a converter taking (n,T) by name -- and for EVERY order tape (validated heap pops, any iteration order) the converter receives exactly the value named n (F1) and the by-name converter runs while the type-only one does not (F2). The proof characterises the pruned call graph of the family exactly, the matching-name discount, and runs the model's Dijkstra by invariant for every admissible pop sequence; it consumes gen_weights_ok from the regenerated GenWeights.v. Correspondence: family streams with distractor inputs/converters over disjoint types, case variants, shuffled options and registration orders, three tapes per scenario, instrumented and native order; monitor c07_monitor on the implementation's traces.",
+        assumptions=["the theorem covers the families without distractors; distractors over disjoint types are explored by the streams"]),
+})
